@@ -72,6 +72,13 @@ SEQ_MAPS = [('len', len, None), ('sum', sum, None), ('list', list, None)]
 SEQ_PREDS = [('nonempty', lambda s: len(s), None), ('truthy', lambda s: s, T), ('len<3', lambda s: len(s) < 3, None)]
 
 
+def _odd_or_not_a_number(x):
+    try:
+        return x % 2 == 1
+    except Exception:
+        return False
+
+
 def gen_stage(rng, kind):
     """kind: 'int' | 'seq' (elements are lists/tuples of ints) -> (name, pclass, apply_glom, apply_ref, new kind)"""
     names = ['map', 'filter', 'slice', 'limit', 'takewhile', 'dropwhile', 'chunked', 'windowed', 'unique']
@@ -87,8 +94,9 @@ def gen_stage(rng, kind):
         if name == 'filter' and rng.random() < 0.2:
             # explicit Check as filter key: keeps items the check accepts
             if kind == 'int':
+                # (a validator that raises fails its Check like one that returns False: with default=SKIP the item is dropped)
                 chk = Check(T, validate=lambda x: x % 2 == 1, default=SKIP)
-                return (name, 'Check', lambda it: it.filter(chk), lambda src: filter(lambda x: x % 2 == 1, src), kind)
+                return (name, 'Check', lambda it: it.filter(chk), lambda src: filter(_odd_or_not_a_number, src), kind)
         spec = t if (t is not None and rng.random() < 0.5) else f
         if name == 'filter':
             if rng.random() < 0.15:
